@@ -116,3 +116,80 @@ package dag
 //@   prop C06
 //@   modifies nothing
 //@   ensures !isNilIface(result)
+
+// ---- C06 / C08 / C14: admitting a transaction ----
+// Add$1 = read closure, Add$2 = write closure, Add$3 = OnRollback, Add$4 / Add$5 = AfterCommit.
+
+// Storage-facing helpers: ASSUMED not to modify memory visible to the caller (they act on the KV store).
+//@ func (*dag).isPresent
+//@   trusted
+//@   benign
+//@ func (*dag).add
+//@   trusted
+//@   benign
+//@ func (PayloadStore).writePayload
+//@   trusted
+//@   benign
+//@ func (*state).loadState
+//@   trusted
+//@   benign
+//@ func crypto/hash.SHA256Sum
+//@   trusted
+//@   pure
+
+//@ func (*state).verifyTX
+//@   prop C06
+//@   assume-benign
+//@   call verifier #1 requires [every-verifier-sees-this-transaction] arg(0) == tx && arg(1) == transaction
+//@   ensures [a-failing-verifier-fails-the-transaction] did(call verifier #1) && !isNilIface(ret(call verifier #1)) ==> !isNilIface(result)
+
+//@ func (*state).saveEvent
+//@   prop C14
+//@   assume-benign
+//@ func (*state).updateState
+//@   assume-benign
+//@ func (*state).notify
+//@   assume-benign
+
+//@ func (*state).Add
+//@   prop C06 C08 C14
+//@   call (go-stoabs.KVStore).Write #1 requires [write-only-after-successful-verification]
+//@        did(call (go-stoabs.KVStore).Read #1) && isNilIface(ret(call (go-stoabs.KVStore).Read #1)) && present == false
+//@     && did(call (*state).verifyTX #1) && isNilIface(ret(call (*state).verifyTX #1)) && arg(call (*state).verifyTX #1, 2) == transaction
+//@   ensures [verification-failure-is-reported] did(call (*state).verifyTX #1) && !isNilIface(ret(call (*state).verifyTX #1)) ==> !isNilIface(result)
+
+//@ func (*state).Add$1
+//@   prop C06
+//@   ensures [present-or-verified] isNilIface(result) ==> ret(call (*dag).isPresent #1) == true
+//@        || (did(call (*state).verifyTX #1) && isNilIface(ret(call (*state).verifyTX #1)) && arg(call (*state).verifyTX #1, 1) == tx && arg(call (*state).verifyTX #1, 2) == transaction)
+//@   ensures [presence-checked-by-ref] arg(call (*dag).isPresent #1, 2) == transaction.Ref() && arg(call (*dag).isPresent #1, 1) == tx && present == ret(call (*dag).isPresent #1)
+
+//@ func (*state).Add$2
+//@   prop C06 C08 C14
+//@   call (*dag).add #1 requires [absent-in-this-write-tx-and-payload-hash-checked]
+//@        did(call (*dag).isPresent #1) && ret(call (*dag).isPresent #1) == false
+//@     && arg(call (*dag).isPresent #1, 1) == tx && arg(call (*dag).isPresent #1, 2) == transaction.Ref()
+//@     && txAdded == true && arg(1) == tx
+//@     && (payload != nil ==> did(call (hash.SHA256Hash).Equals #1) && ret(call (hash.SHA256Hash).Equals #1) == true
+//@           && same(arg(call (hash.SHA256Hash).Equals #1, 0), transaction.PayloadHash())
+//@           && same(arg(call (hash.SHA256Hash).Equals #1, 1), ret(call hash.SHA256Sum #1)) && arg(call hash.SHA256Sum #1, 0) == payload
+//@           && did(call (*state).saveEvent #1) && isNilIface(ret(call (*state).saveEvent #1)) && arg(call (*state).saveEvent #1, 1) == tx)
+//@   call (*state).saveEvent #2 requires [event-saved-in-the-same-tx-after-add]
+//@        did(call (*dag).add #1) && isNilIface(ret(call (*dag).add #1)) && arg(1) == tx && same(arg(2), txEvent)
+//@   call (*state).updateState #1 requires [digests-updated-only-for-a-newly-added-tx]
+//@        did(call (*dag).add #1) && isNilIface(ret(call (*dag).add #1))
+//@     && did(call (*state).saveEvent #2) && isNilIface(ret(call (*state).saveEvent #2)) && arg(1) == tx && arg(2) == transaction
+//@   ensures [already-present-writes-nothing] ret(call (*dag).isPresent #1) == true ==> isNilIface(result)
+//@        && !did(call (*dag).add #1) && !did(call (*state).saveEvent #1) && !did(call (*state).saveEvent #2) && !did(call (*state).updateState #1)
+//@        && txAdded == old(txAdded)
+//@   ensures [success-means-present-or-fully-added] isNilIface(result) ==> ret(call (*dag).isPresent #1) == true
+//@        || (did(call (*state).updateState #1) && isNilIface(ret(call (*state).updateState #1)))
+
+//@ func (*state).Add$4
+//@   prop C06 C14
+//@   call (*state).notify #* requires [notify-only-when-added] txAdded
+
+//@ func (*state).WritePayload$1
+//@   prop C14
+//@   call (PayloadStore).writePayload #1 requires [event-saved-first-in-the-same-tx]
+//@        did(call (*state).saveEvent #1) && isNilIface(ret(call (*state).saveEvent #1)) && arg(call (*state).saveEvent #1, 1) == tx && arg(1) == tx
